@@ -1434,8 +1434,13 @@ class _Ops:
         delta = self.param_tensor(t, dict(op["val"], kind=kind_of(t)), int(t.params.shape[0]), delta=True)
         if delta.shape != t.params.shape:
             return StepResult("skipped")
-        with torch.no_grad():
-            t.params.add_(delta)
+        if op.get("via") == "data":
+            # the pre-0.4 optimiser idiom: an edit through .data changes the values without bumping the tensor's version counter
+            t.params.data.add_(delta)
+            self.c["probes"]["inplace_edit_through_data"] += 1
+        else:
+            with torch.no_grad():
+                t.params.add_(delta)
         x.smooth = x.smooth and op["val"].get("gen", "smooth") in ("smooth", "affine")
         aff = op["val"].get("gen") == "affine"
         for y in self.storage_mates(t):
@@ -2355,41 +2360,54 @@ class _Ops:
                 st, y = self.guarded(lambda: T.obj(x0), expect=sing)
                 if st != "ok":
                     break
-        st, y = self.guarded(lambda: T.obj(x0), expect=sing)
-        if st == "expected":
-            return StepResult("expected_error", "rt-singular")
-        if st == "faulted":
-            self.c["faults"]["callable_raises"] += 1
-            self.set_buf(T, "unknown")
-            self.related_unknown(T)
-            return StepResult("faulted", "roundtrip-faulted")
-        if st != "ok":
-            return StepResult("ok", "rt-raised", [self.viol("C07", "inverse-raises", T, desc + ":T(x)", self.exc_detail(y))])
+        def fail(st_, val, where, which):
+            if st_ == "expected":
+                return StepResult("expected_error", "rt-singular")
+            if st_ == "faulted":
+                self.c["faults"]["callable_raises"] += 1
+                for hh in which:
+                    self.set_buf(hh, "unknown")
+                self.related_unknown(T)
+                return StepResult("faulted", "roundtrip-faulted")
+            return StepResult("ok", "rt-raised", [self.viol("C07", "inverse-raises", T, desc + ":" + where, self.exc_detail(val))])
+
+        def forward_then_inverse():
+            st_, y_ = self.guarded(lambda: T.obj(x0), expect=sing)
+            if st_ != "ok":
+                return fail(st_, y_, "T(x)", [T]), None, None
+            self.set_buf(T, "fresh")
+            if self.has_none(I):
+                return StepResult("skipped"), None, None
+            st_, z_ = self.guarded(lambda: I.obj(y_), expect=sing)
+            if st_ != "ok":
+                return fail(st_, z_, "I(T(x))", [I]), None, None
+            self.set_buf(I, "fresh")
+            return None, y_, z_
+
+        def inverse_then_forward():
+            st_, y_ = self.guarded(lambda: I.obj(x0), expect=sing)
+            if st_ != "ok":
+                return fail(st_, y_, "I(x)", [T, I]), None, None
+            st_, z_ = self.guarded(lambda: T.obj(y_), expect=sing)
+            if st_ != "ok":
+                return fail(st_, z_, "T(I(x))", [T, I]), None, None
+            return None, y_, z_
+
+        # after a change of the forward parameters the *inverse* may be the first of the two to be evaluated again
+        # (it must not depend on the forward transform having been called in between)
+        inv_first = bool(op.get("inv_first")) and not self.has_none(I) and self.links_synced(I)
+        if inv_first:
+            self.c["probes"]["rt_inverse_evaluated_first"] += 1
+            bad, y2, z2 = inverse_then_forward()
+            if bad is None:
+                bad, y, z = forward_then_inverse()
+        else:
+            bad, y, z = forward_then_inverse()
+            if bad is None:
+                bad, y2, z2 = inverse_then_forward()
+        if bad is not None:
+            return bad
         self.set_buf(T, "fresh")
-        if self.has_none(I):
-            return StepResult("skipped")
-        st, z = self.guarded(lambda: I.obj(y), expect=sing)
-        if st == "expected":
-            return StepResult("expected_error", "rt-singular")
-        if st == "faulted":
-            self.c["faults"]["callable_raises"] += 1
-            self.set_buf(I, "unknown")
-            return StepResult("faulted", "roundtrip-faulted")
-        if st != "ok":
-            return StepResult("ok", "rt-raised", [self.viol("C07", "inverse-raises", T, desc + ":I(T(x))", self.exc_detail(z))])
-        self.set_buf(I, "fresh")
-        st, y2 = self.guarded(lambda: I.obj(x0), expect=sing)
-        if st == "ok":
-            st, z2 = self.guarded(lambda: T.obj(y2), expect=sing)
-        if st == "expected":
-            return StepResult("expected_error", "rt-singular")
-        if st == "faulted":
-            self.c["faults"]["callable_raises"] += 1
-            self.set_buf(T, "unknown")
-            self.set_buf(I, "unknown")
-            return StepResult("faulted", "roundtrip-faulted")
-        if st != "ok":
-            return StepResult("ok", "rt-raised", [self.viol("C07", "inverse-raises", T, desc + ":T(I(x))", self.exc_detail(y2 if isinstance(y2, BaseException) else z2))])
         self.related_unknown(T)
         self.set_buf(I, "fresh")
         out = StepResult("ok", digest_bytes(tdig(z), tdig(z2)))
@@ -2711,7 +2729,10 @@ class _Gen:
         x = self.pick(rng, lambda y: not y.is_comp and kind_of(y.obj) in ("P", "B"))
         if x is None:
             return None
-        return {"op": "inplace", "h": x.hid, "val": self.val_desc(rng, x.obj, small=True)}
+        op = {"op": "inplace", "h": x.hid, "val": self.val_desc(rng, x.obj, small=True)}
+        if rng.chance(0.3):
+            op["via"] = "data"
+        return op
 
     def gen_sgd(self, rng):
         x = self.pick(rng, lambda y: any(p.requires_grad for p in y.obj.parameters()) and not self.has_none(y))
@@ -2763,6 +2784,14 @@ class _Gen:
         if x is None:
             return None
         how = rng.weighted([("copy", 3), ("grid", 2), ("data", 3), ("condition", 2), ("unlink", 0.7), ("link", 1)])
+        if how == "condition" and rng.chance(0.7):
+            # conditioning matters where a predictor is involved; nested composites first (their leaves are reached through two levels of copies)
+            cands = self.live(lambda y: any(kind_of(e.obj) == "C" for e in self.elems(y)) or generic_pred(y.obj))
+            nested = [y for y in cands if y.is_comp and any(True for _ in self.composites_below(y.obj))]
+            if nested and rng.chance(0.6):
+                x = rng.choice(nested)
+            elif cands:
+                x = rng.choice(cands)
         op = {"op": "copy", "h": x.hid, "how": how, "out": self.alloc(HID_BLOCK if x.is_comp else 1)}
         if how == "grid":
             if x.is_comp or family(x.obj) == "spline":
@@ -2826,6 +2855,9 @@ class _Gen:
         if len(live) < 2:
             return None
         ms = rng.sample(live, rng.choice([2, 2, 3]))
+        comps = [y for y in live if y.is_comp and not generic_pred(y.obj)]
+        if comps and rng.chance(0.35) and not any(m.is_comp for m in ms):
+            ms[0] = rng.choice(comps)  # a composite nested in a composite
         if len({id(m.obj) for m in ms}) != len(ms):
             return None
         kind = rng.weighted([("seq", 3), ("multi", 1)])
@@ -2837,7 +2869,10 @@ class _Gen:
             return None
         changed = [i for i in valid if self.pairs[i].changed_since]
         i = rng.choice(changed) if changed and rng.chance(0.7) else rng.choice(valid)
-        return {"op": "roundtrip", "pair": i, "pseed": rng.subseed()}
+        op = {"op": "roundtrip", "pair": i, "pseed": rng.subseed()}
+        if rng.chance(0.4 if self.pairs[i].changed_since else 0.15):
+            op["inv_first"] = True
+        return op
 
     def gen_arm(self, rng):
         def has_net(y):
@@ -2985,7 +3020,7 @@ class XformEngine:
             o = dict(op)
             o.pop("via")
             out.append(o)
-        for key in ("nograd", "arm"):
+        for key in ("nograd", "arm", "inv_first"):
             if op.get(key):
                 o = dict(op)
                 o.pop(key)
